@@ -104,6 +104,11 @@ class Console:
         delay = sc.get("answer_delay", 0)
         conn = env.net.conns[cid]
         is_beat = key == (0x1F, 0x30) and env.hb_started
+        if is_beat and getattr(env, "update_requests", 0) > 0:
+            # the application's own check_for_updates(): not a heartbeat; this console leaves it unanswered
+            env.update_requests -= 1
+            env.hb_events.append(("appreq", ticks(env.loop.time())))
+            return
         if is_beat:
             env.hb_events.append(("beat", ticks(env.loop.time())))
             pattern = sc.get("version_answers")
@@ -291,6 +296,9 @@ class Env:
             self.events.append((e[1], kind) + tuple(x if not isinstance(x, (bytes, bytearray)) else len(x) for x in e[2:]))
             for hook in list(self.moment_hooks):
                 hook(len(self.events) - 1)
+            if self.scenario.get("subscribe_early"):
+                # an application that subscribes to ACs and zones as soon as the object lists them (they are visible during the handshake)
+                self.subscribe_objects()
         if kind == "mutated":
             self.mutated.append((e[1], e[2], e[3].hex(), e[4].hex()))
         if kind == "write":
@@ -463,6 +471,7 @@ def run(gen, scenario, moment=None, reinit=False, idle=8000):
             obs["reinit_result"] = r
             obs["reinit_view"] = view_at(at)
             await asyncio.sleep(2500 * TICK)         # past one heartbeat interval
+            obs["reinit_view_late"] = view_at(at)
             obs["reinit_requests"] = [q[2] for q in env.console.requests[n0:n0 + 12]]
             obs["reinit_heartbeats"] = sum(1 for q in env.console.requests[n0:] if q[2] == (0x1F, 0x30))
             # AirTouch 4: the console pushes no group status in these scenarios, so the 300 s silence poll is due once in the 312 s
@@ -515,6 +524,9 @@ async def _call(env, call):
             await acs[0].set_power(api.AcPowerControl.TURN_ON)
         elif call == "toggle":
             await acs[0].set_power(api.AcPowerControl.TOGGLE)
+        elif call == "updates":
+            env.update_requests = getattr(env, "update_requests", 0) + 1
+            await env.at.check_for_updates()
         elif call == "zone":
             zs = list(acs[0].zones)
             if zs:
